@@ -8,45 +8,12 @@ From Coq Require Import Lia Permutation.
 Open Scope N_scope.
 
 (** * The guard of purge accepts every object root the walk yields *)
-Lemma lookup1_filter_ext_eq (es : entries) n :
-  n <> EXT -> lookup1 (filter (fun e => negb (bytes_eqb (fst e) EXT)) es) n = lookup1 es n.
-Proof.
-  intros Hn. induction es as [|[m d] es IH]; [reflexivity|]. cbn [filter fst lookup1 snd].
-  destruct (bytes_eqb m EXT) eqn:E; cbn [negb].
-  - apply bytes_eqb_eq in E. subst m. destruct (bytes_eqb EXT n) eqn:E2; [|exact IH].
-    apply bytes_eqb_eq in E2. congruence.
-  - cbn [lookup1 fst snd]. destruct (bytes_eqb m n); [reflexivity| exact IH].
-Qed.
-
-Lemma walk_not_nested deep t :
-  names_unique t = true -> forall p ces, In (p, ces) (walk_gen deep t) -> nested_in_object t p = false.
-Proof.
-  induction t as [c|es IH] using tree_ind2; intros U p ces H; [destruct H|].
-  rewrite walk_gen_dir in H. apply in_flat_map in H as ([n c] & Hin & Hr).
-  destruct (names_unique_dir es U) as [U1 U2].
-  apply step_in in Hr as (ces' & -> & _ & [[_ E]|[Hroot (r' & Hr' & E)]]).
-  - injection E as -> ->. reflexivity.
-  - destruct r' as [q ces'']. unfold push in E. cbn [fst snd] in E. injection E as -> ->.
-    pose proof (walk_gen_paths_nonempty deep _ _ Hr') as Hq. cbn [fst] in Hq.
-    destruct q as [|n2 q]; [congruence|].
-    cbn [nested_in_object]. rewrite (lookup1_unique es n _ U1 Hin), Hroot. cbn [orb].
-    rewrite Forall_forall in IH. apply (IH _ Hin (U2 _ Hin) _ _ Hr').
-Qed.
-
-Lemma nested_drop_top t n q :
-  n <> EXT -> nested_in_object (drop_top_ext t) (n :: q) = nested_in_object t (n :: q).
-Proof.
-  intros Hn. destruct t as [c|es]; [reflexivity|]. destruct q as [|n2 q]; [reflexivity|].
-  cbn [drop_top_ext nested_in_object]. now rewrite (lookup1_filter_ext_eq es n Hn).
-Qed.
-
 Lemma spec_root_validates t p ces :
   names_unique t = true -> In (p, ces) (spec_roots t) -> validate_object_root t p = true.
 Proof.
   intros U H. destruct (spec_roots_head t p ces H) as (n & q & -> & Hn).
   unfold validate_object_root. apply bytes_eqb_neq in Hn. rewrite Hn. cbn [negb andb].
-  apply bytes_eqb_neq in Hn. rewrite <- (nested_drop_top t n q Hn).
-  now rewrite (walk_not_nested false (drop_top_ext t) (names_unique_drop t U) _ _ H).
+  apply bytes_eqb_neq in Hn. now rewrite (spec_root_not_nested t _ ces U H).
 Qed.
 
 Lemma walk_root_validates t p ces :
